@@ -192,7 +192,7 @@ theorem args_bound_by_name (vars : List (VarM F)) (a : ActionSpec) (m : ActM) (h
   | ok as =>
     simp only [hm, Except.ok.injEq] at h
     subst h
-    simp only
+    simp only [mkAct]
     generalize (a.args.filterMap fun g => completeArg g.name g.direction g.related) = l at hm
     induction l generalizing as with
     | nil => simp [mapE] at hm; subst hm; simp
@@ -221,6 +221,70 @@ theorem args_bound_by_name (vars : List (VarM F)) (a : ActionSpec) (m : ActM) (h
             rcases List.mem_cons.mp hg with rfl | hg'
             · exact ⟨v, hmem, rfl, rfl⟩
             · exact ih2 g hg'
+
+/-- **`argument(name, direction)` finds every argument.** When the (name, direction) pairs of an
+    action's arguments are distinct — an in- and an out-argument MAY share a name —
+    `argument(a.name, a.direction)` returns exactly `a`, for every argument `a` of the action. -/
+theorem argument_lookup (name : Str) (args : List ArgM) (h : (args.map fun a => (a.name, a.direction)).Nodup) :
+    (mkAct name args).byNameDir = (List.range args.length).map some :=
+  byNameDir_id name args h
+
+/-- **`in_arguments()` / `out_arguments()`** list exactly the arguments whose direction is `in` / `out`, in
+    document order -/
+theorem in_out_arguments (name : Str) (args : List ArgM) (i : Nat) :
+    (i ∈ (mkAct name args).inArgs ↔ ∃ a, args[i]? = some a ∧ a.direction = dirIn)
+    ∧ (i ∈ (mkAct name args).outArgs ↔ ∃ a, args[i]? = some a ∧ a.direction = dirOut)
+    ∧ (mkAct name args).inArgs.Pairwise (· < ·) ∧ (mkAct name args).outArgs.Pairwise (· < ·) := by
+  refine ⟨?_, ?_, (idxWhere_sorted _ args 0).2, (idxWhere_sorted _ args 0).2⟩
+  · have := idxWhere_mem (fun a : ArgM => a.direction == dirIn) args 0 i
+    simpa [mkAct] using this
+  · have := idxWhere_mem (fun a : ArgM => a.direction == dirOut) args 0 i
+    simpa [mkAct] using this
+
+/-- a well-formed SCPD gives every action distinct (name, direction) pairs, so `argument_lookup` applies
+    to the actions `mirror` creates -/
+theorem wf_action_pairs (sp : ScpdSpec) (vars : List VarSpec) (acts : List ActionSpec)
+    (hv : sp.vars = some vars) (ha : sp.actions = some acts) (hw : ScpdSpec.wf fo table sp = true)
+    (a : ActionSpec) (hmem : a ∈ acts) (ms : List (VarM F)) (m : ActM) (hm : mirrorAction ms a = .ok m) :
+    (m.args.map fun g => (g.name, g.direction)).Nodup := by
+  obtain ⟨h1, _⟩ := args_bound_by_name ms a m hm
+  have hpairs : m.args.map (fun g => (g.name, g.direction))
+      = (a.args.filterMap fun g => completeArg g.name g.direction g.related).map (fun t => (t.1, t.2.1)) := by
+    rw [← h1]; simp [List.map_map, Function.comp_def]
+  rw [hpairs]
+  unfold ScpdSpec.wf at hw
+  rw [hv, ha] at hw
+  simp only [Bool.and_eq_true, List.all_eq_true] at hw
+  have hd := ((hw.2.2 a hmem).1).2
+  have hall := (hw.2.2 a hmem).2
+  have hcomp : (a.args.filterMap fun g => completeArg g.name g.direction g.related).map (fun t => (t.1, t.2.1))
+      = a.args.map fun g => (g.name.getD [], g.direction.getD []) := by
+    have : ∀ l : List ArgSpec, (∀ g ∈ l, (g.name.isSome = true ∧ g.direction.isSome = true) ∧ g.related.isSome = true) →
+        (l.filterMap fun g => completeArg g.name g.direction g.related).map (fun t => (t.1, t.2.1))
+          = l.map fun g => (g.name.getD [], g.direction.getD []) := by
+      intro l
+      induction l with
+      | nil => intro _; rfl
+      | cons g r ih =>
+        intro hl
+        obtain ⟨⟨hn, hdd⟩, hr⟩ := hl g (by simp)
+        obtain ⟨n, hn'⟩ := Option.isSome_iff_exists.mp hn
+        obtain ⟨d, hd'⟩ := Option.isSome_iff_exists.mp hdd
+        obtain ⟨x, hx'⟩ := Option.isSome_iff_exists.mp hr
+        have ihr := ih (fun y hy => hl y (by simp [hy]))
+        have hc : completeArg g.name g.direction g.related = some (n, d, x) := by simp [completeArg, hn', hd', hx']
+        rw [List.filterMap_cons, hc]
+        simp only [List.map_cons, hn', hd', Option.getD_some]
+        rw [ihr]
+    apply this
+    intro g hg
+    have := hall g hg
+    refine ⟨this.1, ?_⟩
+    cases hrel : g.related with
+    | none => rw [hrel] at this; simp at this
+    | some r => rfl
+  rw [hcomp]
+  exact distinctPairs_nodup _ hd
 
 /-- **send_events_spec.** evented: the attribute wins over the element; only the literal `yes` is true -/
 theorem send_events_spec (v : VarSpec) :
